@@ -259,7 +259,7 @@ def check_hexsrec(ck, drv, r, quick, corr):
                 elif real["ok"]["decode"] != exp_addr:
                     kinds = set(x["code"] for x in recs) if f == "hex" else set()
                     sig = "C14:hex:address-composition:mixed-02-04" if {2, 4} <= kinds else "C14:%s:address-composition" % f
-                    flagged = ck.report(sig, "%s data addresses %r, the format says %r" % (f.upper(), real["ok"]["decode"][:4], exp_addr[:4]), "oracle",
+                    flagged = ck.report(sig, "%s data records are placed at %r, the format says %r" % (f.upper(), [a for a, _ in real["ok"]["decode"]][:6], [a for a, _ in exp_addr][:6]), "oracle",
                                         "Amoco.Fmt.Props.hex_address_composition_partial", case={"data": data.hex()}, real=real["ok"]["decode"],
                                         model=mod.get("ok", {}).get("decode") if isinstance(mod, dict) else None, expected=exp_addr) or True
         elif any(v[0] == "cksum" for v in verd) and all(v[0] in ("ok", "cksum") for v in verd):
